@@ -20,8 +20,8 @@ typedef GenericDocument<DNode<SimpleAllocator>> FreeDoc;
 static const std::vector<std::string> kStatic = {"", "static-a", "static string with \"quotes\"", "0123456789abcdef0123456789abcdef0123456789abcdef"};
 
 // a "history": how a document holding value v is produced
-enum Hist { H_PARSE, H_PARSE_WS, H_BUILD, H_BUILD_PERMUTED, H_COPY, H_REPARSE_DUMP, H_DIRTY, H_RESERVED, H_MAPPED, H_CONST_STRINGS, H_MAP_FIRST, H_COUNT };
-static const char* kHistName[] = {"parse", "parse-ws", "build", "build-permuted", "copy", "reparse-dump", "prior-kind", "extra-capacity", "with-map", "const-strings", "map-first"};
+enum Hist { H_PARSE, H_PARSE_WS, H_BUILD, H_BUILD_PERMUTED, H_COPY, H_REPARSE_DUMP, H_DIRTY, H_RESERVED, H_MAPPED, H_CONST_STRINGS, H_MAP_FIRST, H_MAP_CHURN, H_COUNT };
+static const char* kHistName[] = {"parse", "parse-ws", "build", "build-permuted", "copy", "reparse-dump", "prior-kind", "extra-capacity", "with-map", "const-strings", "map-first", "map-churn"};
 
 static MV permuted(Src& s, const MV& v) {
   MV o = v;
@@ -131,6 +131,35 @@ static void build_map_first(N& dst, const MV& m, A& a) {
     build(dst, m, a, true);
 }
 
+// lookup map first, then every object goes through add / remove-the-last-member / add again on its way to the wanted value:
+// the member that ends up last was preceded in its slot by a member called <key>_ (same value) that was removed again
+template <class N, class A>
+static void build_map_churn(N& dst, const MV& m, A& a) {
+  if (m.k == MV::Arr) {
+    dst.SetArray();
+    for (auto& e : m.a) { N c; build_map_churn(c, e, a); dst.PushBack(std::move(c), a); }
+  } else if (m.k == MV::Obj) {
+    dst.SetObject();
+    dst.CreateMap(a);
+    for (size_t i = 0; i < m.o.size(); i++) {
+      auto& kv = m.o[i];
+      if (i + 1 == m.o.size()) {
+        std::string ghost = kv.first + "_";
+        if (!m.find(ghost)) {
+          N g;
+          build_map_churn(g, kv.second, a);
+          dst.AddMember(StringView(ghost.data(), ghost.size()), std::move(g), a, true);
+          dst.RemoveMember(StringView(ghost.data(), ghost.size()));
+        }
+      }
+      N c;
+      build_map_churn(c, kv.second, a);
+      dst.AddMember(StringView(kv.first.data(), kv.first.size()), std::move(c), a, true);
+    }
+  } else
+    build(dst, m, a, true);
+}
+
 template <class DocT>
 static std::string make(Src& s, DocT& d, const MV& v, int h) {
   auto& a = d.GetAllocator();
@@ -155,6 +184,7 @@ static std::string make(Src& s, DocT& d, const MV& v, int h) {
     case H_DIRTY: build_dirty(s, d, v, a); break;
     case H_RESERVED: build(d, v, a, true); add_capacity(s, static_cast<typename DocT::NodeType&>(d), a); break;
     case H_MAPPED: build(d, permuted(s, v), a, true); add_maps(static_cast<typename DocT::NodeType&>(d), a); break;
+    case H_MAP_CHURN: build_map_churn(static_cast<typename DocT::NodeType&>(d), v, a); break;
     case H_MAP_FIRST: build_map_first(static_cast<typename DocT::NodeType&>(d), v, a); break;
     default: build_const(d, v, a); break;
   }
